@@ -142,6 +142,7 @@ SimStep ==
     \/ (G("aligned") /\ (WithSettings(R({1, 2, 4, 8, 16}), TRUE) \/ WithSettings(R({1, 2, 4, 8, 16}), cfg.ga)))
     \/ (G("prep") /\ EnterPrep(R(SimElems), R(Bools), R({0, 0, 1, 5, 20}), FALSE))
     \/ (G("prep") /\ CanFail /\ EnterPrep(R(SimElems), R(Bools), R({5, 20, 200}), TRUE))
+    \/ (G("prep") /\ EnterPrepG([sz |-> 1, al |-> 1], FALSE, R({0, 3, 20}), FALSE, TRUE))
     \/ (G("prep") /\ (PrepPush(FALSE) \/ (InPrep /\ PrepPush(FALSE)) \/ (InPrep /\ PrepPush(FALSE))))
     \/ (G("prep") /\ CanFail /\ PrepPush(TRUE))
     \/ (G("prep") /\ PrepReserve(R({1, 3, 10, 40, 300}), FALSE))
